@@ -8,3 +8,6 @@ print("wall", d["wall_s"], "crashed", d["crashed"], "unmodelled", d["unmodelled"
 print(Counter((r["prop"], r["ok"]) for r in d["records"]))
 for r in d["records"]:
     if not r["ok"]: print("FAIL", r["prop"], r["key"], "|", r["desc"][:160], r.get("detail"))
+if len(sys.argv) > 2:
+    for r in d["records"]:
+        if sys.argv[2] in r["key"]: print("OK  " if r["ok"] else "FAIL", r["prop"], r["key"], "|", r["desc"][:140])
